@@ -34,7 +34,7 @@ def declare(run):
               reducer_step="k <= 3 levels of arbitrary (symbolic) slot contents, Q = parent or first-descendant (<= 2 levels down) of a later sibling",
               combine_steps="four child results symbolic (unbounded non-negative ints / bools)",
               subpyramid="apex level <= 2, depth <= 3", closed_forms="d <= 30 (recurrence), depth <= 3 executed",
-              end_to_end="depth 1: all 16 level-1 masks x all apexes; thorough: depth 2, 16-bit level-2 mask, <= 3 accepted level-1 tiles, all apexes")
+              end_to_end="depth 1: all 16 level-1 masks x all apexes; thorough: depth 2, 16-bit level-2 mask, every pair of accepted level-1 tiles, all apexes with free masks")
     run.assume("CrossHair's models of int/bool/list/tuple/namedtuple; hashing a symbolic Pos realises it (positions enumerated inside the stated ranges)",
                "progress_bar and print inside toasty.pyramid/toasty.toast replaced by no-ops",
                "recursive calls / Pyramid._make_iter_reducer replaced by hypothesis stubs in the one-step obligations")
